@@ -94,6 +94,7 @@ type normState struct {
 	overlay  map[string][]byte
 	check    *checkSpec
 	keepUsed map[types.Object]bool
+	checkIfText string
 	typeArgs map[types.Object]string // type parameters of the generic callee being inlined → source text of the type arguments
 }
 
@@ -461,7 +462,7 @@ func normalizeTree(repo string, extraEnv []string, overlay map[string][]byte) (m
 	var good []*packages.Package // packages of the last overlay that type-checked
 	goodOv := overlay
 	capturesDone := false
-	for round := 0; round < 9; round++ {
+	for round := 0; round < 12; round++ {
 		pkgs, err := loadTyped(repo, extraEnv, cur, packages.LoadSyntax)
 		if err != nil {
 			return goodOv, good, notes, inlined
@@ -507,6 +508,9 @@ func normalizeTree(repo string, extraEnv []string, overlay map[string][]byte) (m
 			for k := range inl {
 				inlined[k] = true
 			}
+		}
+		if len(es) == 0 {
+			es = ns.planUnrolls()
 		}
 		if len(es) == 0 && !capturesDone {
 			capturesDone = true
